@@ -30,7 +30,7 @@ Frozen == UNCHANGED vars
 
 TInit ==
   /\ l = 1 /\ okf = TRUE /\ scn = "" /\ live = FALSE
-  /\ n = 0 /\ E = {} /\ C = {} /\ es = <<>> /\ cnt = <<>> /\ readyQ = <<>> /\ readyTx = FALSE /\ doneQ = <<>>
+  /\ n = 0 /\ E = {} /\ C = <<>> /\ es = <<>> /\ cnt = <<>> /\ readyQ = <<>> /\ readyTx = FALSE /\ doneQ = <<>>
   /\ doneTx = FALSE /\ rem = 0 /\ held = {} /\ dropped = {} /\ yielded = <<>>
   /\ wDone = FALSE /\ wReady = FALSE /\ woken = FALSE /\ last = "never" /\ streamDropped = FALSE
   /\ is = IS0 /\ sigChan = FALSE /\ sigSent = FALSE /\ afterSig = 0 /\ intSeen = FALSE
@@ -48,7 +48,7 @@ TReset ==
 TBuild ==
   /\ IsEv("build") /\ okf
   /\ LET sq == [i \in DOMAIN Rec[l].edges |-> <<Rec[l].edges[i][1], Rec[l].edges[i][2]>>] IN
-     /\ es' = sq /\ E' = Range(sq) /\ C' = Closure(n, Range(sq))
+     /\ es' = sq /\ E' = Range(sq) /\ C' = ReachAny(n, Range(sq))
   /\ Step
   /\ UNCHANGED <<n, cnt, readyQ, readyTx, doneQ, doneTx, rem, held, dropped, yielded, wDone, wReady, woken, last,
                  streamDropped, is, sigChan, sigSent, afterSig, intSeen, okf, scn, live>>
